@@ -90,8 +90,13 @@ fn tid() -> Option<usize> {
     TID.try_with(|t| t.get()).unwrap_or(None)
 }
 
+/// Single-threaded real-kernel scenarios: make a10 take its locks with try_lock + the
+/// `lock_blocked` hook (instead of blocking in a futex), so that a lock that can never be
+/// taken (use-after-free of an operation's state) is noticed by `stalled`.
+pub static SPIN_LOCKS: AtomicBool = AtomicBool::new(false);
+
 pub fn active() -> bool {
-    ACTIVE.load(Ordering::Relaxed) && tid().is_some()
+    (ACTIVE.load(Ordering::Relaxed) && tid().is_some()) || SPIN_LOCKS.load(Ordering::Relaxed)
 }
 
 fn kernel_ready(fd: i32, want: u32) -> bool {
